@@ -10,6 +10,7 @@ import (
 	"sort"
 	"strings"
 	"sync"
+	"syscall"
 	"time"
 
 	"verif/harness/evid"
@@ -21,6 +22,19 @@ import (
 )
 
 const srvRepo = "c14"
+
+// Watchdogs (>= 100x the normal duration of an answer). C14_WATCHDOG_S shortens
+// them for mutation self-tests only.
+var reqTimeout, listTimeout, quietTimeout = 90 * time.Second, 3 * time.Minute, 20 * time.Second
+
+func init() {
+	if v := os.Getenv("C14_WATCHDOG_S"); v != "" {
+		var n int
+		if _, err := fmt.Sscanf(v, "%d", &n); err == nil && n > 0 {
+			reqTimeout, listTimeout, quietTimeout = time.Duration(n)*time.Second, time.Duration(n)*time.Second, time.Duration(n)*time.Second/2
+		}
+	}
+}
 
 type traceEntry struct {
 	N          int
@@ -100,7 +114,10 @@ type execState struct {
 	refProb  float64
 	phaseIdx int
 	inDrain  bool
-	logMark  int
+	// a delayed blob whose download cannot succeed was retrieved from the local store
+	// (the object got there through a clean in the meantime): coordinate of a known race
+	leftoverLocal bool
+	logMark       int
 }
 
 func (x *execState) configText(user string) string {
@@ -214,7 +231,15 @@ func (x *execState) witness(what string) map[string]any {
 		objs = append(objs, map[string]any{"idx": o.Idx, "kind": o.Kind, "size": o.Size, "oid": o.Oid, "fault": o.Fault, "failN": o.FailN})
 	}
 	cfg := map[string]any{"idx": x.c.Idx, "delay": x.c.Delay, "skipdownloaderrors": x.c.SkipErr, "batchSize": x.c.BatchSize, "concurrenttransfers": x.c.Concurrent, "maxretries": x.c.MaxRetries, "race": x.c.Race}
-	return map[string]any{"what": what, "case": cfg, "objects": objs, "trace": x.trace, "filter_stderr": sbx.Trunc([]byte(se), 3000), "filter_exit": x.exit,
+	var gor any
+	if i := strings.Index(se, "SIGQUIT: quit"); i >= 0 {
+		gor = goroutineSummary(se[i:])
+		if os.Getenv("C14_DUMP") != "" {
+			os.WriteFile(fmt.Sprintf("/tmp/c14-hang-%d.txt", x.c.Idx), []byte(se), 0o644)
+		}
+		se = se[:i] + "SIGQUIT: quit (sent by the driver's watchdog; goroutines summarised in filter_goroutines)"
+	}
+	return map[string]any{"what": what, "case": cfg, "objects": objs, "trace": x.trace, "filter_stderr": sbx.Trunc([]byte(se), 3000), "filter_exit": x.exit, "filter_goroutines": gor,
 		"replay": "VERIF_SEED=<seed> ./check C14 --tier <tier> regenerates case idx; trace lists every request (kind, path, payload class/len/sha, packetisation) and answer"}
 }
 
@@ -255,6 +280,65 @@ func (x *execState) desyncTrigger(trig string, atEnd bool) (string, string) {
 		return "protocol-desync-after-request", p.Req + "/" + p.PayClass
 	}
 	return "filter-died", trig
+}
+
+// stackDump: a hung filter is asked (SIGQUIT) to print its goroutine stacks into
+// stderr before it is killed; the dump goes into the witness. The pid is found
+// through /proc (cwd = the case's repository, argv contains filter-process).
+func (x *execState) stackDump() {
+	ents, _ := os.ReadDir("/proc")
+	for _, e := range ents {
+		pid := 0
+		if _, err := fmt.Sscanf(e.Name(), "%d", &pid); err != nil || pid <= 1 {
+			continue
+		}
+		cwd, err := os.Readlink(filepath.Join("/proc", e.Name(), "cwd"))
+		if err != nil || cwd != x.repo {
+			continue
+		}
+		cl, _ := os.ReadFile(filepath.Join("/proc", e.Name(), "cmdline"))
+		if !bytes.Contains(cl, []byte("filter-process")) || !bytes.Contains(cl, []byte("git-lfs")) {
+			continue
+		}
+		syscall.Kill(pid, syscall.SIGQUIT)
+		time.Sleep(500 * time.Millisecond)
+	}
+}
+
+// goroutineSummary keeps, per goroutine of a SIGQUIT dump, the header and the git-lfs frames.
+func goroutineSummary(dump string) []string {
+	var out []string
+	for _, blk := range strings.Split(dump, "\n\n") {
+		lines := strings.Split(blk, "\n")
+		if len(lines) == 0 || !strings.HasPrefix(lines[0], "goroutine ") {
+			continue
+		}
+		var fr []string
+		for i, l := range lines {
+			if strings.HasPrefix(l, "github.com/git-lfs/") && i+1 < len(lines) {
+				f := l
+				if j := strings.LastIndex(f, "("); j > 0 {
+					f = f[:j]
+				}
+				loc := strings.TrimSpace(lines[i+1])
+				if j := strings.Index(loc, " "); j > 0 {
+					loc = loc[:j]
+				}
+				fr = append(fr, strings.TrimPrefix(f, "github.com/git-lfs/git-lfs/v3/")+" "+filepath.Base(loc))
+			}
+		}
+		if len(fr) > 0 {
+			hdr := lines[0]
+			if j := strings.Index(hdr, " gp="); j > 0 {
+				k := strings.Index(hdr, "[")
+				if k > j {
+					hdr = hdr[:j] + " " + hdr[k:]
+				}
+			}
+			out = append(out, hdr+" "+strings.Join(fr, " <- "))
+		}
+	}
+	return out
 }
 
 // closeFilter closes stdin, waits, records exit and stderr.
@@ -372,13 +456,11 @@ func (x *execState) expectFor(kind string, o op) (expect, bool) {
 	return e, true
 }
 
-func (x *execState) extraHeaders(payload []byte, retrieval bool) []string {
-	// Git sends (ref=,) treeish= and blob= with smudge requests made from a checkout
-	hs := []string{"treeish=" + x.treeish}
-	if !retrieval || true {
-		hs = append(hs, "blob="+gitBlobSha(payload))
-	}
-	return hs
+func (x *execState) extraHeaders(payload []byte) []string {
+	// Git sends (ref=,) treeish= and blob= with every smudge request made from a
+	// checkout, also with the retrieval of a delayed blob (convert.c: the same
+	// metadata, only the content is empty then)
+	return []string{"treeish=" + x.treeish, "blob=" + gitBlobSha(payload)}
 }
 
 // request sends one clean/smudge/dsmudge/retrieve request and judges the answer.
@@ -397,6 +479,10 @@ func (x *execState) request(kind string, o op) {
 	if !ok {
 		return
 	}
+	if ob := x.objOf(o); kind == "retrieve" && ob != nil && !ob.obtainableFromServer() && ob.Kind != kLocal && x.local[ob.Oid] {
+		x.leftoverLocal = true
+		x.run.Count("retrievals_of_undownloadable_blob_from_local_store", 1)
+	}
 	te.Expect = exp.Mode
 	rq := fpclient.Request{Command: cmdKind, Path: o.Path}
 	if kind != "retrieve" {
@@ -409,7 +495,7 @@ func (x *execState) request(kind string, o op) {
 		}
 	}
 	if cmdKind == "smudge" {
-		rq.Extra = x.extraHeaders(o.Payload, kind == "retrieve")
+		rq.Extra = x.extraHeaders(o.Payload)
 	}
 	rq.CanDelay = kind == "dsmudge"
 	te.CanDelay = rq.CanDelay
@@ -437,8 +523,19 @@ func (x *execState) request(kind string, o op) {
 
 	switch {
 	case resp.TimedOut:
+		// Quiescence: the request has been written completely, it needs no network
+		// (clean, non-pointer smudge, smudge of an object that is local) and the fake
+		// server has nothing in flight: nothing the filter could still be waiting for.
+		// Only then is the fired watchdog (>= 100x the normal duration) a violation.
+		needsNet := cmdKind == "smudge" && obj != nil && !x.local[obj.Oid] && obj.Kind != kLocal
+		quiet := x.srv.InFlight() == 0 && (!needsNet || x.settled(obj, x.srv.Log()))
+		x.stackDump()
 		x.cl.Kill()
 		x.closeFilter()
+		if quiet {
+			x.viol("no-answer", trig, fmt.Sprintf("no complete answer to %s of %q: the filter stopped answering although the request was sent completely and no transfer is outstanding for it; filter stderr: %s", kind, o.Path, sbx.Trunc([]byte(x.stderr), 600)))
+			return
+		}
 		x.done = true
 		x.run.Inconclusive(fmt.Sprintf("case %d: watchdog fired waiting for the answer to %s %s", x.c.Idx, kind, o.PayClass))
 		return
@@ -539,49 +636,47 @@ func (x *execState) quiescent() bool {
 		if d.announced > 0 {
 			continue
 		}
-		obj := x.objOf(d.o)
-		if obj == nil {
-			continue
-		}
-		served, gets, batched := false, 0, false
-		for _, rq := range log[x.logMark:] {
-			if rq.User != "main" {
-				continue
-			}
-			switch rq.Kind {
-			case "storage-get":
-				if rq.Oid == obj.Oid {
-					gets++
-					if rq.Status == 200 || rq.Status == 206 {
-						served = true
-					}
-				}
-			case "batch":
-				objs, _ := rq.JSON["objects"].([]any)
-				for _, e := range objs {
-					m, _ := e.(map[string]any)
-					if oid, _ := m["oid"].(string); oid == obj.Oid && rq.Status != 0 {
-						batched = true
-					}
-				}
-			}
-		}
-		switch obj.Kind {
-		case kServer, kFlaky, kLocal:
-			if !served && !x.local[obj.Oid] {
-				return false
-			}
-		case kFailing:
-			if gets < 1+x.c.MaxRetries {
-				return false
-			}
-		default:
-			if !batched {
-				return false
-			}
+		if obj := x.objOf(d.o); obj != nil && !x.settled(obj, log) {
+			return false
 		}
 	}
 	return true
+}
+
+// settled: the fake server has nothing more to do for obj: it was served, or it
+// failed its last scripted attempt (1+maxretries GETs of an always failing object,
+// the batch answer of a missing / refused one).
+func (x *execState) settled(obj *object, log []*fakelfs.Request) bool {
+	served, gets, batched := false, 0, false
+	for _, rq := range log[x.logMark:] {
+		if rq.User != "main" {
+			continue
+		}
+		switch rq.Kind {
+		case "storage-get":
+			if rq.Oid == obj.Oid {
+				gets++
+				if rq.Status == 200 || rq.Status == 206 {
+					served = true
+				}
+			}
+		case "batch":
+			objs, _ := rq.JSON["objects"].([]any)
+			for _, e := range objs {
+				m, _ := e.(map[string]any)
+				if oid, _ := m["oid"].(string); oid == obj.Oid && rq.Status != 0 {
+					batched = true
+				}
+			}
+		}
+	}
+	switch obj.Kind {
+	case kServer, kFlaky, kLocal:
+		return served || x.local[obj.Oid]
+	case kFailing:
+		return gets >= 1+x.c.MaxRetries
+	}
+	return batched
 }
 
 func (x *execState) delayedKinds() string {
@@ -615,7 +710,42 @@ func (x *execState) drain(inter []op) {
 		te := &traceEntry{N: x.nreq, Req: "list"}
 		x.trace = append(x.trace, te)
 		x.run.Count("req_list", 1)
-		resp := x.cl.Do(fpclient.Request{Command: "list_available_blobs"})
+		// The call blocks inside the filter until a blob is available or the queue is
+		// done. Watchdog: the overall one (listTimeout) is inconclusive unless the
+		// transfers are known to be finished; once quiescence has been established
+		// (nothing in flight at the server, every delayed object served or failed its
+		// last scripted attempt) there is nothing left the filter could be waiting
+		// for, and quietTimeout (>= 1000x the normal duration of such a round) without
+		// an answer is a hang.
+		x.cl.Timeout = listTimeout
+		ch := make(chan fpclient.Resp, 1)
+		go func() { ch <- x.cl.Do(fpclient.Request{Command: "list_available_blobs"}) }()
+		var resp fpclient.Resp
+		quietSince := time.Time{}
+		hung := false
+	wait:
+		for {
+			select {
+			case resp = <-ch:
+				break wait
+			case <-time.After(250 * time.Millisecond):
+				if x.quiescent() {
+					if quietSince.IsZero() {
+						quietSince = time.Now()
+					} else if time.Since(quietSince) > quietTimeout {
+						hung = true
+						x.stackDump()
+						x.cl.Kill()
+						resp = <-ch
+						resp.TimedOut = true
+						break wait
+					}
+				} else {
+					quietSince = time.Time{}
+				}
+			}
+		}
+		x.cl.Timeout = reqTimeout
 		rounds++
 		if quiet {
 			after++
@@ -625,10 +755,17 @@ func (x *execState) drain(inter []op) {
 		x.shape = append(x.shape, fmt.Sprintf("list%d:%s", len(resp.Paths), resp.Status1))
 		switch {
 		case resp.TimedOut:
-			q := x.quiescent()
-			x.cl.Kill()
+			q := hung
+			if !hung {
+				q = x.quiescent()
+				x.stackDump()
+				x.cl.Kill()
+			}
 			x.closeFilter()
 			if q {
+				if x.leftoverLocal {
+					trig = "list/after-local-retrieval-of-undownloadable-blob"
+				}
 				x.viol("list-hang", trig, fmt.Sprintf("list_available_blobs (round %d) did not answer although all transfers have finished (%d delayed blobs)", rounds, n))
 			} else {
 				x.done = true
@@ -757,7 +894,7 @@ func (rn *runner) exec(c *ccase, seed int64) {
 		x.viol("handshake-failed", "handshake/"+strings.Join(caps, "+"), err.Error()+" stderr: "+sbx.Trunc([]byte(x.stderr), 800))
 		return
 	}
-	cl.Timeout = 3 * time.Minute
+	cl.Timeout = reqTimeout
 	x.cl = cl
 	want := map[string]bool{}
 	for _, cp := range cl.Caps {
@@ -847,6 +984,9 @@ func (rn *runner) raceLogs(env *sbx.Env, c *ccase, x *execState) {
 			} else {
 				rn.run.Count("race_reports_auxiliary", 1)
 				rn.auxRace(rep)
+				if os.Getenv("C14_DUMP") != "" && !strings.Contains(rep, "lfshttp.(*Client).traceResponse") {
+					fmt.Fprintf(os.Stderr, "AUX RACE case %d:\n%s\n", c.Idx, rep)
+				}
 			}
 		}
 	}
